@@ -737,47 +737,47 @@ type tok =
 
 type token = span * tok
 
-type chr = n
-
-(** val is_z : chr -> bool **)
+(** val is_z : n -> bool **)
 
 let is_z c =
   N.eqb c N0
 
-(** val is_break : chr -> bool **)
+(** val is_break : n -> bool **)
 
 let is_break c =
   (||) (N.eqb c (Npos (XO (XI (XO XH))))) (N.eqb c (Npos (XI (XO (XI XH)))))
 
-(** val is_breakz : chr -> bool **)
+(** val is_breakz : n -> bool **)
 
 let is_breakz c =
   (||) (is_break c) (is_z c)
 
-(** val is_blank : chr -> bool **)
+(** val is_blank : n -> bool **)
 
 let is_blank c =
   (||) (N.eqb c (Npos (XO (XO (XO (XO (XO XH)))))))
     (N.eqb c (Npos (XI (XO (XO XH)))))
 
-(** val is_blank_or_breakz : chr -> bool **)
+(** val is_blank_or_breakz : n -> bool **)
 
 let is_blank_or_breakz c =
   (||) (is_blank c) (is_breakz c)
 
-(** val is_digit : chr -> bool **)
+(** val is_digit : n -> bool **)
 
 let is_digit c =
   (&&) (N.leb (Npos (XO (XO (XO (XO (XI XH)))))) c)
     (N.leb c (Npos (XI (XO (XO (XI (XI XH)))))))
 
-(** val is_alpha : chr -> bool **)
+(** val is_alpha : n -> bool **)
 
 let is_alpha c =
   (||)
     ((||)
       ((||)
-        ((||) (is_digit c)
+        ((||)
+          ((&&) (N.leb (Npos (XO (XO (XO (XO (XI XH)))))) c)
+            (N.leb c (Npos (XI (XO (XO (XI (XI XH))))))))
           ((&&) (N.leb (Npos (XI (XO (XO (XO (XO (XI XH))))))) c)
             (N.leb c (Npos (XO (XI (XO (XI (XI (XI XH))))))))))
         ((&&) (N.leb (Npos (XI (XO (XO (XO (XO (XO XH))))))) c)
@@ -785,29 +785,35 @@ let is_alpha c =
       (N.eqb c (Npos (XI (XI (XI (XI (XI (XO XH)))))))))
     (N.eqb c (Npos (XI (XO (XI (XI (XO XH)))))))
 
-(** val is_hex : chr -> bool **)
+(** val is_hex : n -> bool **)
 
 let is_hex c =
   (||)
-    ((||) (is_digit c)
+    ((||)
+      ((&&) (N.leb (Npos (XO (XO (XO (XO (XI XH)))))) c)
+        (N.leb c (Npos (XI (XO (XO (XI (XI XH))))))))
       ((&&) (N.leb (Npos (XI (XO (XO (XO (XO (XI XH))))))) c)
         (N.leb c (Npos (XO (XI (XI (XO (XO (XI XH))))))))))
     ((&&) (N.leb (Npos (XI (XO (XO (XO (XO (XO XH))))))) c)
       (N.leb c (Npos (XO (XI (XI (XO (XO (XO XH)))))))))
 
-(** val as_hex : chr -> n **)
+(** val as_hex : n -> n **)
 
 let as_hex c =
-  if is_digit c
-  then N.sub c (Npos (XO (XO (XO (XO (XI XH))))))
+  if (&&) (N.leb (Npos (XO (XO (XO (XO (XI XH)))))) c)
+       (N.leb c (Npos (XI (XO (XO (XI (XI XH)))))))
+  then N.add (N.sub c (Npos (XO (XO (XO (XO (XI XH))))))) N0
   else if (&&) (N.leb (Npos (XI (XO (XO (XO (XO (XI XH))))))) c)
             (N.leb c (Npos (XO (XI (XI (XO (XO (XI XH))))))))
        then N.add (N.sub c (Npos (XI (XO (XO (XO (XO (XI XH)))))))) (Npos (XO
               (XI (XO XH))))
-       else N.add (N.sub c (Npos (XI (XO (XO (XO (XO (XO XH)))))))) (Npos (XO
-              (XI (XO XH))))
+       else if (&&) (N.leb (Npos (XI (XO (XO (XO (XO (XO XH))))))) c)
+                 (N.leb c (Npos (XO (XI (XI (XO (XO (XO XH))))))))
+            then N.add (N.sub c (Npos (XI (XO (XO (XO (XO (XO XH))))))))
+                   (Npos (XO (XI (XO XH))))
+            else N0
 
-(** val is_flow : chr -> bool **)
+(** val is_flow : n -> bool **)
 
 let is_flow c =
   (||)
@@ -819,65 +825,73 @@ let is_flow c =
       (N.eqb c (Npos (XI (XI (XO (XI (XI (XI XH)))))))))
     (N.eqb c (Npos (XI (XO (XI (XI (XI (XI XH))))))))
 
-(** val is_bom : chr -> bool **)
+(** val is_bom : n -> bool **)
 
 let is_bom c =
   N.eqb c (Npos (XI (XI (XI (XI (XI (XI (XI (XI (XO (XI (XI (XI (XI (XI (XI
     XH))))))))))))))))
 
-(** val is_yaml_non_break : chr -> bool **)
+(** val is_yaml_non_break : n -> bool **)
 
 let is_yaml_non_break c =
   (&&) (negb (is_break c)) (negb (is_bom c))
 
-(** val is_yaml_non_space : chr -> bool **)
+(** val is_yaml_non_space : n -> bool **)
 
 let is_yaml_non_space c =
   (&&) (is_yaml_non_break c) (negb (is_blank c))
 
-(** val is_anchor_char : chr -> bool **)
+(** val is_anchor_char : n -> bool **)
 
 let is_anchor_char c =
   (&&) ((&&) (is_yaml_non_space c) (negb (is_flow c))) (negb (is_z c))
 
-(** val is_word_char : chr -> bool **)
+(** val is_word_char : n -> bool **)
 
 let is_word_char c =
   (&&) (is_alpha c) (negb (N.eqb c (Npos (XI (XI (XI (XI (XI (XO XH)))))))))
 
-(** val mem : chr -> chr list -> bool **)
-
-let mem c l =
-  existsb (N.eqb c) l
-
-(** val uri_extra : chr list **)
-
-let uri_extra =
-  (Npos (XI (XI (XO (XO (XO XH)))))) :: ((Npos (XI (XI (XO (XI (XI
-    XH)))))) :: ((Npos (XI (XI (XI (XI (XO XH)))))) :: ((Npos (XI (XI (XI (XI
-    (XI XH)))))) :: ((Npos (XO (XI (XO (XI (XI XH)))))) :: ((Npos (XO (XO (XO
-    (XO (XO (XO XH))))))) :: ((Npos (XO (XI (XI (XO (XO XH)))))) :: ((Npos
-    (XI (XO (XI (XI (XI XH)))))) :: ((Npos (XI (XI (XO (XI (XO
-    XH)))))) :: ((Npos (XO (XO (XI (XO (XO XH)))))) :: ((Npos (XO (XO (XI (XI
-    (XO XH)))))) :: ((Npos (XI (XI (XI (XI (XI (XO XH))))))) :: ((Npos (XO
-    (XI (XI (XI (XO XH)))))) :: ((Npos (XI (XO (XO (XO (XO XH)))))) :: ((Npos
-    (XO (XI (XI (XI (XI (XI XH))))))) :: ((Npos (XO (XI (XO (XI (XO
-    XH)))))) :: ((Npos (XI (XI (XI (XO (XO XH)))))) :: ((Npos (XO (XO (XO (XI
-    (XO XH)))))) :: ((Npos (XI (XO (XO (XI (XO XH)))))) :: ((Npos (XI (XI (XO
-    (XI (XI (XO XH))))))) :: ((Npos (XI (XO (XI (XI (XI (XO
-    XH))))))) :: ((Npos (XI (XO (XI (XO (XO
-    XH)))))) :: [])))))))))))))))))))))
-
-(** val is_uri_char : chr -> bool **)
+(** val is_uri_char : n -> bool **)
 
 let is_uri_char c =
-  (||) (is_word_char c) (mem c uri_extra)
+  (||) (is_word_char c)
+    (existsb (N.eqb c) ((Npos (XI (XI (XO (XO (XO XH)))))) :: ((Npos (XI (XI
+      (XO (XI (XI XH)))))) :: ((Npos (XI (XI (XI (XI (XO XH)))))) :: ((Npos
+      (XI (XI (XI (XI (XI XH)))))) :: ((Npos (XO (XI (XO (XI (XI
+      XH)))))) :: ((Npos (XO (XO (XO (XO (XO (XO XH))))))) :: ((Npos (XO (XI
+      (XI (XO (XO XH)))))) :: ((Npos (XI (XO (XI (XI (XI XH)))))) :: ((Npos
+      (XI (XI (XO (XI (XO XH)))))) :: ((Npos (XO (XO (XI (XO (XO
+      XH)))))) :: ((Npos (XO (XO (XI (XI (XO XH)))))) :: ((Npos (XI (XI (XI
+      (XI (XI (XO XH))))))) :: ((Npos (XO (XI (XI (XI (XO XH)))))) :: ((Npos
+      (XI (XO (XO (XO (XO XH)))))) :: ((Npos (XO (XI (XI (XI (XI (XI
+      XH))))))) :: ((Npos (XO (XI (XO (XI (XO XH)))))) :: ((Npos (XI (XI (XI
+      (XO (XO XH)))))) :: ((Npos (XO (XO (XO (XI (XO XH)))))) :: ((Npos (XI
+      (XO (XO (XI (XO XH)))))) :: ((Npos (XI (XI (XO (XI (XI (XO
+      XH))))))) :: ((Npos (XI (XO (XI (XI (XI (XO XH))))))) :: ((Npos (XI (XO
+      (XI (XO (XO XH)))))) :: [])))))))))))))))))))))))
 
-(** val is_tag_char : chr -> bool **)
+(** val is_tag_char : n -> bool **)
 
 let is_tag_char c =
   (&&) ((&&) (is_uri_char c) (negb (is_flow c)))
     (negb (N.eqb c (Npos (XI (XO (XO (XO (XO XH))))))))
+
+(** val sIMPLE_KEY_MAX : n **)
+
+let sIMPLE_KEY_MAX =
+  Npos (XO (XO (XO (XO (XO (XO (XO (XO (XO (XO XH))))))))))
+
+(** val fLOW_LEVEL_MAX : n **)
+
+let fLOW_LEVEL_MAX =
+  Npos (XI (XI (XI (XI (XI (XI (XI XH)))))))
+
+(** val vERSION_DIGITS_MAX : n **)
+
+let vERSION_DIGITS_MAX =
+  Npos (XI (XO (XO XH)))
+
+type chr = n
 
 type 'a outcome =
 | Ok of 'a
@@ -1702,9 +1716,7 @@ let stale_simple_keys x =
     let stale = fun k ->
       (&&) ((&&) k.sk_possible (N.eqb s.sc_flow_level N0))
         ((||) (N.ltb k.sk_mark.m_line s.sc_mark.m_line)
-          (N.ltb
-            (N.add k.sk_mark.m_index (Npos (XO (XO (XO (XO (XO (XO (XO (XO
-              (XO (XO XH)))))))))))) s.sc_mark.m_index))
+          (N.ltb (N.add k.sk_mark.m_index sIMPLE_KEY_MAX) s.sc_mark.m_index))
     in
     if existsb (fun k -> (&&) (stale k) k.sk_required) s.sc_sks
     then fail (Npos (XO (XO (XI (XI (XO XH)))))) s.sc_mark
@@ -1738,7 +1750,7 @@ let increase_flow_level x =
       set_sks ({ sk_possible = false; sk_required = false; sk_token_number =
         N0; sk_mark = mk0 } :: s.sc_sks) s
     in
-    if N.eqb s.sc_flow_level (Npos (XI (XI (XI (XI (XI (XI (XI XH))))))))
+    if N.eqb s.sc_flow_level fLOW_LEVEL_MAX
     then (fun _ -> Err ((Npos (XI (XO (XI (XI (XO XH)))))), s.sc_mark))
     else put (set_fl (N.add s.sc_flow_level (Npos XH)) s')) x
 
@@ -2014,7 +2026,7 @@ let scan_version_directive_number ops f mk =
     | S f1 ->
       bind (look_ch ops) (fun c ->
         if is_digit c
-        then if N.ltb (Npos (XI (XO (XO XH)))) (N.add len (Npos XH))
+        then if N.ltb vERSION_DIGITS_MAX (N.add len (Npos XH))
              then fail (Npos (XI (XO (XI (XI (XI XH)))))) mk
              else let v =
                     N.add (N.mul val0 (Npos (XO (XI (XO XH)))))
@@ -2116,17 +2128,7 @@ let scan_directive ops f =
                      bind (skip_linebreak ops) (fun _ -> ret tk))
               else fail (Npos (XI (XI (XO (XO (XO (XO XH))))))) start))))))
 
-(** val nls : n -> chr list -> chr list **)
-
-let nls n0 acc =
-  N.iter n0 (fun x -> (Npos (XO (XI (XO XH)))) :: x) acc
-
-(** val col_lt_indent : ('a1, bool) m **)
-
-let col_lt_indent x =
-  gets (fun s -> Z.ltb (Z.of_N s.sc_mark.m_col) s.sc_indent) x
-
-(** val escape_table : (chr * chr) list **)
+(** val escape_table : (n * n) list **)
 
 let escape_table =
   ((Npos (XO (XO (XO (XO (XI XH)))))), N0) :: (((Npos (XI (XO (XO (XO (XO (XI
@@ -2151,22 +2153,39 @@ let escape_table =
     (XO (XO (XI (XO (XI (XO (XO (XO (XO (XO (XO (XO
     XH))))))))))))))) :: [])))))))))))))))))
 
+(** val code_length_table : (n * nat) list **)
+
+let code_length_table =
+  ((Npos (XO (XO (XO (XI (XI (XI XH))))))), (S (S O))) :: (((Npos (XI (XO (XI
+    (XO (XI (XI XH))))))), (S (S (S (S O))))) :: (((Npos (XI (XO (XI (XO (XI
+    (XO XH))))))), (S (S (S (S (S (S (S (S O))))))))) :: []))
+
+(** val nls : n -> chr list -> chr list **)
+
+let nls n0 acc =
+  N.iter n0 (fun x -> (Npos (XO (XI (XO XH)))) :: x) acc
+
+(** val col_lt_indent : ('a1, bool) m **)
+
+let col_lt_indent x =
+  gets (fun s -> Z.ltb (Z.of_N s.sc_mark.m_col) s.sc_indent) x
+
 (** val assocc : chr -> (chr * chr) list -> chr option **)
 
 let rec assocc k = function
 | [] -> None
 | p :: r -> let (a, b) = p in if N.eqb a k then Some b else assocc k r
 
+(** val assocn : chr -> (chr * nat) list -> nat **)
+
+let rec assocn k = function
+| [] -> O
+| p :: r -> let (a, b) = p in if N.eqb a k then b else assocn k r
+
 (** val code_length : chr -> nat **)
 
 let code_length c =
-  if N.eqb c (Npos (XO (XO (XO (XI (XI (XI XH)))))))
-  then S (S O)
-  else if N.eqb c (Npos (XI (XO (XI (XO (XI (XI XH)))))))
-       then S (S (S (S O)))
-       else if N.eqb c (Npos (XI (XO (XI (XO (XI (XO XH)))))))
-            then S (S (S (S (S (S (S (S O)))))))
-            else O
+  assocn c code_length_table
 
 (** val is_scalar_value : n -> bool **)
 
